@@ -328,11 +328,15 @@ fn legacy_accept_loop(listener: TcpListener, pool: ThreadPool) {
 fn pool_world(finish: Finish) {
     let w = world();
     let p = w.sc.pool.clone().expect("pool scenario");
-    let pool = Arc::new(ThreadPool::new(p.size));
+    let mut pool_owner = Some(Arc::new(ThreadPool::new(p.size)));
     let n = p.tasks.len();
     let size = p.size;
     for s in 0..p.submitters.max(1) {
-        let pool = pool.clone();
+        let pool = pool_owner.as_ref().unwrap().clone();
+        if p.drop_after_submit && s + 1 == p.submitters.max(1) {
+            // the submitters hold the only handles: the pool goes away with the last of them
+            pool_owner = None;
+        }
         let tasks = p.tasks.clone();
         let subs = p.submitters.max(1);
         spawn_harness(format!("s{}", s), move || {
@@ -388,6 +392,17 @@ fn pool_world(finish: Finish) {
                         }
                         TaskKind::Gated => {
                             w.block_on(CV_AUX, |st| if st.gate_open { Some(()) } else { None });
+                        }
+                        TaskKind::Panicking => {
+                            w.with(|st| {
+                                st.inside_now -= 1;
+                                st.done[i] = true;
+                                st.log("task_panics", i, 0);
+                                st.reach("task_panicked_inside_pool");
+                                st.note(CV_MAIN);
+                            });
+                            w.flush();
+                            panic!("scripted task panic");
                         }
                     }
                     w.with(|st| {
